@@ -55,13 +55,33 @@ def cases(tier, seed):
             out.append({'k': 'ondemand', 'fields': fields, 'second': second})
     # the walk of a value fails part-way (whatever the value does when it is looked at): at every call of the two steps of the walk,
     # in the frame collection and in each watch; later watches / log fields name parts of the value the failed walk had reached
-    for seam in ('process_variable', 'process_child_nodes'):
+    # a watch that reaches the agent's own working copy of the frame's variables (whatever refers to `a`: gc.get_referrers)
+    for ft in ('single_frame', 'all_frame'):
+        out.append({'k': 'referrers', 'ft': ft})
+    for seam in ('fn.process_variable', 'fn.process_child_nodes', 'fn.safe_str', 'm.process_variable', 'm.new_var_id:after', 'm.append_variable'):
         for wl in range(len(FAULTY_WATCHES)):
             out.append({'k': 'faulty', 'seam': seam, 'watches': wl})
     return out
 
 
 FAULTY_WATCHES = [['g', 'g.stats'], ['g.stats', 'g'], ['g', 'g.stats', "g.stats['hits']"], ['g', '[g.stats]'], ['g', 'g.routes', 'g']]
+
+
+def run_referrers(ctx, desc):
+    loc = {'a': [1, 2], 'z': 7}
+    watches = ['[r for r in __import__("gc").get_referrers(a) if type(r) is dict]', 'a']
+    agent, run, info = snapref.take(loc, [{'watches': watches, 'frame_type': desc['ft'], 'MAX_VAR_DEPTH': 2}])
+    ctx.case()
+    ctx.nt(('referrers', desc['ft']))
+    if run.escaped or len(agent.snapshots) != 1:
+        ctx.violation('C07/no-snapshot/referrers', f'snapshots={len(agent.snapshots)} escaped={run.escaped[:1]}', desc)
+        return
+    snap = agent.snapshots[0]
+    probs = snapref.closure_problems(snap)
+    ctx.outcome(('referrers', desc['ft'], len(snap.var_lookup), bool(probs)))
+    if probs:
+        ctx.violation('C07/dangling/child/agents-own-copy-of-the-variables', f'watch {watches[0]!r} (the dictionaries that refer to local a): unresolved references {probs[:3]}; '
+                      f'table ids {sorted(snap.var_lookup, key=int)[:12]}', desc)
 
 
 class WalkFails(BaseException):
@@ -71,7 +91,12 @@ class WalkFails(BaseException):
 def run_faulty(ctx, desc):
     import deep.processor.variable_set_processor as VSP
     seam, watches = desc['seam'], FAULTY_WATCHES[desc['watches']]
-    real = getattr(VSP, seam)
+    # where the step lives: a function of the module, or a method of the processor; ':after' = the step is done, then the failure comes (what
+    # a signal handler raising between two statements looks like: the id is handed out, the entry is not written yet)
+    after = seam.endswith(':after')
+    where, attr = seam.split(':')[0].split('.')
+    holder = VSP if where == 'fn' else VSP.VariableSetProcessor       # fn: a function of the module; m: a method of the processor
+    real = getattr(holder, attr)
 
     def build():
         g = graphs.Obj()
@@ -86,16 +111,19 @@ def run_faulty(ctx, desc):
         def wrapped(*a, **k):
             n = calls['n']
             calls['n'] += 1
-            if n == fail_at:
+            if n == fail_at and not after:
                 raise WalkFails('walk step %d' % n)
-            return real(*a, **k)
-        setattr(VSP, seam, wrapped)
+            r = real(*a, **k)
+            if n == fail_at:
+                raise WalkFails('after walk step %d' % n)
+            return r
+        setattr(holder, attr, wrapped)
         try:
             loc = build()
             ws = [w.replace('g', 'd[0][0][0][0][0]', 1) if w.startswith('g') else w.replace('g.', 'd[0][0][0][0][0].') for w in watches]
             agent, run, info = snapref.take(loc, [{'watches': ws, 'log_msg': 'stats {d[0][0][0][0][0].stats}'}], plugins=[rig.RecLogger(rig.Journal())])
         finally:
-            setattr(VSP, seam, real)
+            setattr(holder, attr, real)
         return agent, run, calls['n']
 
     agent, run, total = take(-1)
@@ -107,6 +135,11 @@ def run_faulty(ctx, desc):
         if run.escaped:
             ctx.violation(f'C07/faulty/raised-into-host/{seam}', f'watches {watches}, call #{k} of {seam} fails: handler raised {run.escaped[0][1]!r}', case)
             return
+        if len(agent.snapshots) != 1 and where == 'm':
+            # the whole step of the processor fails (what an exception raised by a signal handler inside the agent looks like): the agent's
+            # outer guard contains it and the snapshot may be lost - what must not happen is a snapshot with references to nothing
+            ctx.outcome(('faulty', seam, 'no-snapshot'))
+            continue
         if len(agent.snapshots) != 1:
             ctx.violation(f'C07/faulty/no-snapshot/{seam}', f'watches {watches}, call #{k} of {seam} (of {total}) fails: {len(agent.snapshots)} snapshots delivered', case)
             continue
@@ -140,6 +173,9 @@ def watches_for(ws, spec):
         return ['[11]', '[22]', '{"q": 33}', '{"q": 44}']
     if ws == 'locals':
         return ['locals()']
+    if ws == 'referrers':
+        # whatever refers to `a` right now - the frame, containers of the program, and the agent's own working copies of the variables
+        return ['__import__("gc").get_referrers(a)', 'a']
     return ['1/0', 'a']
 
 
@@ -370,6 +406,8 @@ def run_case(ctx, desc):
         return run_bigwatch(ctx, desc)
     if desc['k'] == 'faulty':
         return run_faulty(ctx, desc)
+    if desc['k'] == 'referrers':
+        return run_referrers(ctx, desc)
     if desc['k'] == 'one':
         return check_one(ctx, desc)
     if desc['k'] == 'big':
@@ -498,7 +536,7 @@ def check_one(ctx, desc):
                 ctx.violation('C07/frame-variable-wrong-object', f'local {v.name} leads to the entry of another object', desc)
                 return
         # 4. termination with back references
-        extra = {'none': 0, 'same': 0, 'alias': 0, 'temp': 4, 'two_temps': 10, 'locals': 0, 'failing': 3, 'equal': 6}[ws]
+        extra = {'none': 0, 'same': 0, 'alias': 0, 'temp': 4, 'two_temps': 10, 'locals': 0, 'failing': 3, 'equal': 6, 'referrers': 5000}[ws]
         if len(table) > len(levels) + extra + 1:
             ctx.violation('C07/repetition-instead-of-back-reference', f'graph {spec}: {len(table)} entries for {len(levels)} distinct reachable objects', desc)
             return
